@@ -82,6 +82,29 @@ func init() {
 			Steps: []Step{stepDo("set-extras", nil, func(w *World) { setExtras(w, []int{1, 0, 2}) })}}
 	})
 
+	// C13, fault-free with a membership change: a single voter adds a second one over a link whose one-way delay
+	// (70 ms) is below the lease timeout (100 ms). The new voter is needed for the lease quorum at once; a healthy
+	// leader must keep leading in the same term whatever instant the AddVoter arrives at.
+	regScenario("quiet-addvoter-slow", func() *Scenario {
+		ns := append(voters(1), NodeSpec{Suffrage: raft.Voter, StartUp: true})
+		return &Scenario{Nodes: ns, Timed: true, Devs: DevStepEarly, Horizon: 6000,
+			Latency: func(w *World, from, to int, kind string) time.Duration {
+				if to == 1 {
+					return 70 * time.Millisecond
+				}
+				return 0
+			},
+			Goal: func(w *World) bool { return w.vals["added"] == 1 && w.now() >= w.tvals["added"]+1500*time.Millisecond },
+			Steps: []Step{
+				stepDo("set-extras", nil, func(w *World) { setExtras(w, []int{0, 1}) }),
+				earlyStep("add-voter", func(w *World) bool { return w.now() >= 1*time.Second && w.stableLeader() != nil }, func(w *World) {
+					w.addVoter(w.leader(), 1, 0)
+					w.vals["added"] = 1
+					w.tvals["added"] = w.now()
+				}),
+			}}
+	})
+
 	// C14: a minority is isolated for a while, then reconnected.
 	mkPrevote := func(n int, isolateLeader bool, length time.Duration, mixed bool) func() *Scenario {
 		return func() *Scenario {
@@ -355,7 +378,7 @@ func (m *Monitors) timedEnd() {
 			}
 		}
 	}
-	if w.sc.Name == "quiet3" {
+	if w.sc.Name == "quiet3" || w.sc.Name == "quiet-addvoter-slow" {
 		if len(m.leaders) != 1 {
 			m.fail("C13", "healthy-leader-deposed", "fault-free run of %v saw leaders in %d terms: %v", w.now(), len(m.leaders), fmt.Sprint(m.leaders))
 		}
